@@ -24,17 +24,17 @@ pub fn well_formed(line: &str, ui: &[(usize, usize, String)]) -> Result<(), Stri
     let mut prev_start = 0usize;
     for (i, (s, e, k)) in ui.iter().enumerate() {
         if !(s < e) {
-            return Err(format!("token {} ({}, {}, {}) is empty or reversed", i, s, e, k));
+            return Err(format!("empty or reversed token: token {} ({}, {}, {})", i, s, e, k));
         }
         if *e > nchars {
-            return Err(format!("token {} ({}, {}, {}) ends beyond the {} characters of the line (byte offset?)", i, s, e, k, nchars));
+            return Err(format!("token ends beyond the characters of the line (byte offset?): token {} ({}, {}, {}), line has {} characters", i, s, e, k, nchars));
         }
         if i > 0 {
             if *s < prev_start {
-                return Err(format!("token {} ({}, {}, {}) starts before its predecessor", i, s, e, k));
+                return Err(format!("tokens not ordered by start: token {} ({}, {}, {})", i, s, e, k));
             }
             if *s < prev_end {
-                return Err(format!("token {} ({}, {}, {}) overlaps its predecessor ending at {}", i, s, e, k, prev_end));
+                return Err(format!("tokens overlap: token {} ({}, {}, {}) starts before its predecessor ends at {}", i, s, e, k, prev_end));
             }
         }
         prev_end = *e;
@@ -148,7 +148,7 @@ impl Prop for C17 {
                     v.expected = format!("{} ; contains {:?}", v.expected, c.must);
                     for m in c.must.iter() {
                         if !o.ui[0].iter().any(|t| t == m) {
-                            v.violation = Some(format!("no token {:?}", m));
+                            v.violation = Some(format!("expected token missing: {:?}", m));
                             return v;
                         }
                     }
